@@ -54,6 +54,9 @@ static const int max_nesting_depth = 200;
 // (only another manifest to expand) before we give up.
 static const int max_expand_depth = 1000;
 
+// How deeply template arguments may be nested within template arguments.
+static const int max_template_nesting = 64;
+
 // Don't forget to update CPPToken::output() when adding entries.
 static const std::unordered_map<std::string, int> keywords = {
   {"alignas", KW_ALIGNAS},
@@ -3254,6 +3257,19 @@ nested_parse_template_instantiation(CPPTemplateScope *scope) {
     << "Beginning nested parse\n";
 #endif
   assert(scope != nullptr);
+
+  // Every level of template arguments within template arguments runs a nested
+  // parser, and each of those needs a good deal of stack.
+  if (_template_nesting >= max_template_nesting) {
+    error("template arguments nested too deeply");
+    _state = S_eof;
+    return new CPPTemplateParameterList;
+  }
+  struct NestingGuard {
+    int &_nesting;
+    NestingGuard(int &nesting) : _nesting(nesting) { ++_nesting; }
+    ~NestingGuard() { --_nesting; }
+  } nesting_guard(_template_nesting);
 
   State old_state = _state;
   int old_nesting = _paren_nesting;
